@@ -20,7 +20,6 @@ if os.environ.get("VERIF_KNOWN_FILE"):          # development only: try proposed
 CLS_SAME_NAME = "same-bare-type-name-in-two-packages"
 CLS_ENUM30 = "openapi-3.0-non-string-enum-values-emitted-as-strings"
 CLS_RFC = "rfc7807-component-without-a-plain-error-route"
-CLS_ONEOF30 = "openapi-3.0-oneof-or-enum-tag-through-ref-rewrites-shared-component"
 CLS_YAML31 = "openapi-3.1-string-enum-values-retyped-by-yaml"
 
 YAML_WORDS = {"true", "false", "yes", "no", "on", "off", "y", "n", "null", "nan", "inf"}
@@ -57,30 +56,6 @@ def direct_named(t):
     while t[0] == "ptr":
         t = t[1]
     return t if t[0] == "named" else None
-
-
-def touching(validate):
-    for rule in (validate or "").split(","):
-        name, _, val = rule.partition("=")
-        if name == "enum" or (name == "oneof" and val.split()):
-            return True
-    return False
-
-
-def has_touching_ref_tag(u):
-    """A oneof/enum rule on a field or parameter whose schema is a bare $ref."""
-    reach = T.py_reach(u)
-    for d in u["decls"]:
-        if d["kind"] == "struct" and (d["pkg"], d["name"]) in reach:
-            for f in d["fields"]:
-                if not f["embedded"] and f["name"][:1].isupper() and f["json"] != "-" \
-                        and direct_named(f["type"]) is not None and touching(f["validate"]):
-                    return True
-    for r in T.all_routes(u):
-        for p in r["params"]:
-            if direct_named(p["type"]) is not None and touching(p["validate"]):
-                return True
-    return False
 
 
 def returns_plain_error(u):
@@ -236,7 +211,7 @@ def custom_error_universe(rng):
 
 
 def tricky_universe():
-    """The shapes behind F17 / F19 / F22 in one small universe (they are in the random stream too)."""
+    """Unexported / json:"-" / nameless-json fields and YAML-sensitive enum values in one small universe (they are in the random stream too)."""
     P = T.prim
     return {"cfg": {"title": "API", "version": "1.0.0", "base_url": "https://api.example.com",
                     "schemes": [{"name": "sec1", "type": "apiKey", "in": "header", "field": "x-sec1"}], "default": None},
@@ -320,7 +295,7 @@ def main():
         singles.append(("tricky", tricky_universe()))
         singles.append(("same-named", same_named_universe()))
         singles.append(("custom-error", custom_error_universe(rng)))
-        n = 26 if quick else 400
+        n = 26 if quick else 300
         k = 0
         while k < n:
             u = T.gen_universe(rng, {"tricky_enum_values": True, "custom_error": 0.08})
@@ -328,7 +303,7 @@ def main():
                 continue
             singles.append(("random", u))
             k += 1
-        nb = 8 if quick else 80
+        nb = 8 if quick else 60
         tries = 0
         got = {}
         while len(pairs) < 4 * nb and tries < 20 * nb:
@@ -377,9 +352,6 @@ def main():
         j = neutral_of.get((k, v))
         if j is not None and j not in ev["c07_fail"] and j not in ev["unprojectable"]:
             return set(meta[j][3])
-        rest = ev["c07_fail"].get(j if j is not None else raw_id, [])
-        if v == "3.0.0" and has_touching_ref_tag(u) and set(rest) <= {1}:
-            return set(meta[j][3] if j is not None else set()) | {CLS_ONEOF30}
         return None
 
     def report_known_or_violation(classes, what, replay):
@@ -512,12 +484,7 @@ def main():
                       "before": {n: ca[n] for n in diff}, "after": {n: cb.get(n) for n in diff},
                       "claim": "a type's schema is a function of its declaration alone: adding a validator at one "
                                "usage site or one more route must not change the shared component"}
-            if kind == "field-oneof" and ver == "3.0.0" and diff == [tgt] and not missing:
-                class_hits[CLS_ONEOF30] = class_hits.get(CLS_ONEOF30, 0) + 1
-                report_known_or_violation({CLS_ONEOF30}, "component %s changes when one field of that type gets "
-                                          "validate:\"oneof=...\" (3.0.0 only)" % tgt, replay)
-            else:
-                res.violation(replay)
+            res.violation(replay)
 
     # ---- evidence
     raw = [i for i, m in enumerate(meta) if m[2] == "raw"]
@@ -534,7 +501,8 @@ def main():
                 "validate tags; enums of string, int*, uint*, float*, bool kinds; typedef and assigned aliases; unused "
                 "declarations) with 1-2 controllers whose routes use the types as body, result, query/header "
                 "parameters, rendered to Go and run through the real CLI for 3.0.0 and 3.1.0; plus metamorphic pairs "
-                "(same universe +- one usage-site tag on a $ref-typed field or parameter, + one route) compared on "
+                "(same universe +- one usage-site tag - required, or oneof=... on an enum-typed field, the former F9 - on "
+                "a $ref-typed field or parameter, + one route) compared on "
                 "the implementation's components; non-trivial = document written and it has a struct component; "
                 "distinct = distinct universes",
         "samples": [{"openapi": cases[i][0], "universe": cases[i][1],
@@ -549,7 +517,7 @@ def main():
             "documents_not_written": len(raw) - len(accepted),
             "model_predicts_failure": len([i for i in ev["model_none"] if meta[i][2] == "raw"]),
             "runs_satisfying_theorem_hypotheses": {
-                "unique_type_names_and_quiet (C07_lookup_partial, C07_noninterference_partial)":
+                "unique_type_names (C07_closure, C07_lookup, C07_noninterference)":
                     len([i for i in ev["unique_quiet"] if meta[i][2] == "raw"]),
                 "well_linked (C08_wf_partial)": len([i for i in ev["well_linked"] if meta[i][2] == "raw"])},
             "metamorphic_pairs": pair_stats}),
